@@ -1,7 +1,6 @@
 package main
 
 import (
-	"verif/shim/vlock"
 	"bufio"
 	"bytes"
 	"encoding/json"
@@ -20,6 +19,7 @@ import (
 	"sync"
 	"syscall"
 	"time"
+	"verif/shim/vlock"
 
 	"verif/engine"
 	apimodel "verif/model/api"
@@ -102,6 +102,12 @@ func c28Exec(n *node, rt *apimodel.Route, q *c28Req) (o c28Obs) {
 	}
 	if q.CType != "" {
 		h["Content-Type"] = []string{q.CType}
+	}
+	for k, v := range q.Headers {
+		h[k] = []string{v}
+	}
+	if rt == nil {
+		rt = &apimodel.Route{Path: "/", Resp: "any"} // static files: no golden route, any well-formed response
 	}
 	rec := httptest.NewRecorder()
 	func() {
@@ -414,6 +420,9 @@ func c28(r *engine.Run) {
 		}
 		infos[st] = info
 		reqs[st] = c28Requests(g, info, c28FirstID(st))
+		if st == "chain" {
+			reqs[st] = append(reqs[st], c28StaticRequests(info, c28FirstID(st)+len(reqs[st])+1000)...)
+		}
 		if only := os.Getenv("VERIF_C28_ONLY"); only != "" {
 			// debugging aid: restrict to endpoints containing the string; the run is then reported CHECK-BROKEN, never as a verdict
 			var keep []c28Req
